@@ -36,7 +36,8 @@ void vf_begin(Ctx& ctx) {
 static void tag_case(Case& c) {
   // input-class tags that known findings may refer to (kept in the witness as kv _tags)
   std::string t;
-  if (c.geti("op") == OFFSET_OBJ || c.geti("op") == INFLATE64 || c.geti("op") == INFLATED || c.geti("op") == EXPORT64 || c.geti("op") == EXPORTD) {
+  const bool export_inflate = (c.geti("op") == EXPORT64 || c.geti("op") == EXPORTD) && (c.geti("variant") == 2 || c.geti("variant") == 3);
+  if (c.geti("op") == OFFSET_OBJ || c.geti("op") == INFLATE64 || c.geti("op") == INFLATED || export_inflate) {
     bool has_empty = false; for (auto& p : c.P("S")) if (p.empty()) has_empty = true;
     for (auto& p : c.P("C")) if (p.empty()) has_empty = true;
     if (has_empty) t += "offset_group_contains_empty_path,";
@@ -47,6 +48,7 @@ static void tag_case(Case& c) {
 
 static void judge_hostile(Ctx& ctx, const Case& c, bool from_replay) {
   ctx.begin(c);
+  if (c.geti("lattice", 0)) ctx.count("cases_on_a_degenerate_rectilinear_lattice");
   long long live0 = vfalloc::g_live_count;
   vfalloc::g_peak_bytes = vfalloc::g_live_bytes;
   long long base_bytes = vfalloc::g_live_bytes;
@@ -141,7 +143,12 @@ static bool g_oom_mode(Ctx& ctx) { return ctx.optstr("mode", "hostile") == "oom"
 void vf_case(Ctx& ctx, uint64_t i) {
   bool oom = g_oom_mode(ctx);
   int op = (int)(i % NOPS);
+  // --mode lattice: nothing but boolean operations (PolyTree output three times out of four) on degenerate rectilinear
+  // lattice scenes; they cost microseconds, so hundreds of thousands of them fit a quick run
+  const bool lat = ctx.optstr("mode", "hostile") == "lattice";
+  if (lat) { static const int ops[] = { BOOL64_TREE, BOOL64_TREE, BOOL64_PATHS, REUSE, BOOL64_TREE, EXPORT64, BOOL64_TREE, BOOL64_TREE }; op = ops[i % 8]; g_lim.force_lattice = true; }
   Case c = gen_op(ctx.rng, op, g_lim);
+  if (lat && op == EXPORT64) c.seti("variant", 1);   // BooleanOp_PolyTree64
   if (c.getd("arc") > 0 && std::fabs(c.getd("delta")) / c.getd("arc") > 1e6) c.setd("arc", std::fabs(c.getd("delta")) / 1e6);
   tag_case(c);
   if (oom) {
